@@ -259,6 +259,69 @@ static void run_ctor(const Src& s, const CtorStep& t) {
   terminal_layer(*r, after, site, inj);
 }
 
+// ------------------------------------------------------------------ join scenarios (upper_bound_assign[_if_exact])
+// The operand pool of phase B holds states of depth <= 1; an inexact union (L, T, cross shape) needs operands with
+// three or more rows each.  PAIRS: every ordered pair of "flat" shapes of one dimension: products of intervals
+// [l,u], l <= u, over a small coordinate set (points, segments along each axis, boxes), plus - for BD shapes and
+// octagons - the proper boxes cut by one diagonal row.  Each receiver is used freshly built and after a closing query.
+struct PShape { int dim; std::vector<ZC> rows; std::string name; };
+static std::vector<PShape> PSH[4];     // by dimension
+static void build_pair_shapes() {
+  for (int dim = 2; dim <= std::min(3, std::max(CFG.maxdim, 2)); ++dim) {
+    std::vector<long> co = (dim == 2 || CFG.thorough) ? std::vector<long>{0, 2, 4} : std::vector<long>{0, 2};
+    std::vector<std::pair<long, long> > iv;
+    for (size_t a = 0; a < co.size(); ++a) for (size_t b = a; b < co.size(); ++b) iv.push_back(std::make_pair(co[a], co[b]));
+    std::vector<size_t> idx(dim, 0);
+    for (;;) {
+      PShape sh; sh.dim = dim; bool proper = true;
+      for (int k = 0; k < dim; ++k) {
+        long l = iv[idx[k]].first, u = iv[idx[k]].second;
+        if (l == u) { sh.rows.push_back(mkc(dvec(dim, k, 1), 'E', Q(l))); proper = false; }
+        else { sh.rows.push_back(mkc(dvec(dim, k, 1), 'G', Q(l))); sh.rows.push_back(mkc(dvec(dim, k, 1), 'L', Q(u))); }
+        sh.name += std::string(k ? "x" : "") + "[" + std::to_string(l) + "," + std::to_string(u) + "]";
+      }
+      PSH[dim].push_back(sh);
+      if (proper && KIND != K_BOX && dim == 2) {
+        long lo0 = iv[idx[0]].first, lo1 = iv[idx[1]].first, hi0 = iv[idx[0]].second, hi1 = iv[idx[1]].second;
+        { PShape d = sh; d.rows.push_back(mkc({1, -1}, 'L', Q(lo0 - lo1))); d.name += "&A-B<=" + std::to_string(lo0 - lo1); PSH[dim].push_back(d); }
+        { PShape d = sh; d.rows.push_back(mkc({-1, 1}, 'L', Q(lo1 - lo0))); d.name += "&B-A<=" + std::to_string(lo1 - lo0); PSH[dim].push_back(d); }
+        if (KIND == K_OCT) {
+          { PShape d = sh; d.rows.push_back(mkc({1, 1}, 'L', Q(lo0 + hi1))); d.name += "&A+B<=" + std::to_string(lo0 + hi1); PSH[dim].push_back(d); }
+          { PShape d = sh; d.rows.push_back(mkc({-1, -1}, 'L', Q(-(hi0 + lo1)))); d.name += "&-A-B<=" + std::to_string(-(hi0 + lo1)); PSH[dim].push_back(d); }
+        }
+      }
+      int k = 0; while (k < dim && ++idx[k] == iv.size()) { idx[k] = 0; ++k; }
+      if (k == dim) break;
+    }
+  }
+}
+static std::vector<std::pair<int, int> > PAIR_ITEMS;     // (dim, receiver shape index): one work item each
+static D* build_pshape(const PShape& sh) { D* p = new D(sh.dim, PPL::UNIVERSE); for (size_t i = 0; i < sh.rows.size(); ++i) p->add_constraint(sh.rows[i].ppl()); return p; }
+static int OP_UBX = -1, OP_UB = -1;
+static long long pair_steps(int dim) { return (long long)PSH[dim].size() * 4; }      // operand x {fresh, closed receiver} x {if_exact, upper_bound}
+static std::string pair_step_name(int dim, int xi, long long sub) {
+  int yi = (int)(sub / 4), var = (int)(sub % 4);
+  return std::string(var & 1 ? "upper_bound_assign" : "upper_bound_assign_if_exact") + " receiver=" + PSH[dim][xi].name + (var & 2 ? " (after is_empty())" : "") + " operand=" + PSH[dim][yi].name;
+}
+static void run_pair(int dim, int xi, long long sub) {
+  int yi = (int)(sub / 4), var = (int)(sub % 4);
+  const PShape& xs = PSH[dim][xi]; const PShape& ys = PSH[dim][yi];
+  size_t oi = (var & 1) ? OP_UB : OP_UBX;
+  const Op& op = OPS[oi];
+  PD x(build_pshape(xs)), y(build_pshape(ys));
+  if (var & 2) (void)x->is_empty();
+  std::string inj = J().str("shape", SHAPE_NAME).str("op", op.name).str("receiver", xs.name + (var & 2 ? " after is_empty()" : "")).str("operand", ys.name).num("dim", dim).done();
+  LAZY_INPUT = [inj]() { return inj; };
+  CUR_OP = &op; CUR_Q = 0; CUR_SIG = A::sig(*x); CUR_OSIG = A::sig(*y); LAST_BAD = false; CUR_PIECES.clear(); CUR_LOST = -1; CUR_AFTER = -1;
+  int cx = gamma_cls(*x, site_of(op.name), inj), cy = gamma_cls(*y, site_of(op.name), inj);
+  CUR_CLS = cx; CUR_OCLS = cy;
+  std::string ret;
+  try { ret = op.apply(*x, y.get()); }
+  catch (const std::exception& ex) { viol(site_of(op.name), "unexpected-exception", "none", inj, ex.what(), "no exception"); return; }
+  count(CNT_TRANS);
+  check_op_result(cx, cy, oi, *x, ret, inj, (var & 1) == 0);
+}
+
 // ------------------------------------------------------------------ main
 static int shape_main(int argc, char** argv) {
   ARGS = parse_args(argc, argv);
@@ -285,7 +348,12 @@ static int shape_main(int argc, char** argv) {
   long long nrep_ops = 0; for (int r : REPS) if (CLS_DEPTH[ST[r].cls] <= CFG.depth_ops) ++nrep_ops;
   fprintf(stderr, "[shapes %s %s] phase A: depth=%d states=%zu transitions=%lld classes=%zu signatures=%zu reps=%zu (ops on %lld) poolq=%zu poolo=%zu ops=%zu queries=%zu sources=%zu in %.1fs\n",
           SHAPE_NAME, CFG.c04 ? "C04" : "C03", CFG.depth, ST.size(), TRANS_A, CL.cells.size(), SIGS.size(), REPS.size(), nrep_ops, POOLQ.size(), POOLO.size(), OPS.size(), QS.size(), SRCS.size(), ta);
-  long long NG = (long long)GROUPS.size(), NS = (long long)SRCS.size();
+  if ((CFG.what == "all" || CFG.what == "ops" || CFG.what == "pairs") && CFG.maxdim >= 2) {
+    build_pair_shapes();
+    for (size_t oi = 0; oi < OPS.size(); ++oi) { if (OPS[oi].name == "upper_bound_assign_if_exact") OP_UBX = (int)oi; if (OPS[oi].name == "upper_bound_assign") OP_UB = (int)oi; }
+    for (int dim = 2; dim <= 3; ++dim) if (dim >= CFG.mindim) for (size_t i = 0; i < PSH[dim].size(); ++i) PAIR_ITEMS.push_back(std::make_pair(dim, (int)i));
+  }
+  long long NG = (long long)GROUPS.size(), NS = (long long)SRCS.size(), NP = (long long)PAIR_ITEMS.size();
   Pool::Fn fn = [&](long long item, long long sub_start) {
     long long sub = 0;
     if (item < NG) {
@@ -295,10 +363,14 @@ static int shape_main(int argc, char** argv) {
         for (size_t k = 0; k < steps.size(); ++k) { long long my = sub++; if (!pool().want(my, sub_start)) continue; pool().step(my); run_step(s, steps[k]); }
         count(CNT_STATES);
       }
-    } else {
+    } else if (item < NG + NS) {
       const Src& src = SRCS[item - NG];
       std::vector<CtorStep> steps; ctor_steps(src, steps);
       for (size_t k = 0; k < steps.size(); ++k) { long long my = sub++; if (!pool().want(my, sub_start)) continue; pool().step(my); run_ctor(src, steps[k]); }
+    } else {
+      std::pair<int, int> pi = PAIR_ITEMS[item - NG - NS];
+      long long n = pair_steps(pi.first);
+      for (long long k = 0; k < n; ++k) { long long my = sub++; if (!pool().want(my, sub_start)) continue; pool().step(my); run_pair(pi.first, pi.second, k); }
     }
   };
   Pool::CrashFn cf = [&](long long item, long long sub, int sig, bool confirmed) {
@@ -329,6 +401,11 @@ static int shape_main(int argc, char** argv) {
         base += steps.size();
       }
       sink().line(J().str("t", "error").str("msg", "crash at unknown sub-step").done());
+    } else if (item >= NG + NS) {
+      std::pair<int, int> pi = PAIR_ITEMS[item - NG - NS];
+      std::string nm = pair_step_name(pi.first, pi.second, sub);
+      report_violation(site_of(nm.substr(0, nm.find(' '))), std::string("crash:") + signame(sig), "none",
+                       J().str("shape", SHAPE_NAME).str("scenario", nm).done(), signame(sig), "normal return");
     } else {
       const Src& src = SRCS[item - NG];
       std::vector<CtorStep> steps; ctor_steps(src, steps);
@@ -338,7 +415,7 @@ static int shape_main(int argc, char** argv) {
     }
   };
   limit_memory(6ULL << 30);
-  pool().run(NG + NS, ARGS.jobs, fn, cf, ARGS, atoi(ARGS.opt("--step-timeout", "8").c_str()));
+  pool().run(NG + NS + NP, ARGS.jobs, fn, cf, ARGS, atoi(ARGS.opt("--step-timeout", "8").c_str()));
   bool complete = counter(CNT_SKIPPED) == 0 && counter(CNT_REFCRASH) == 0;
   std::vector<std::string> samples;
   for (size_t i = 0; i < REPS.size(); i += std::max<size_t>(1, REPS.size() / 3)) samples.push_back(hist_json(REPS[i]));
@@ -346,7 +423,7 @@ static int shape_main(int argc, char** argv) {
   std::vector<std::string> sigs; for (auto& s : SIGS) sigs.push_back(jstr(s));
   J extra; extra.str("shape", SHAPE_NAME).str("mode", CFG.c04 ? "C04" : "C03").num("phaseA_states", ST.size()).num("phaseA_transitions", TRANS_A).num("value_classes_phaseA", CLS_DEPTH.size())
     .num("representatives", REPS.size()).num("representatives_with_transformers", nrep_ops).num("operand_pool_predicates", POOLQ.size()).num("operand_pool_transformers", POOLO.size())
-    .num("ops", OPS.size()).num("queries", QS.size()).num("constructor_sources", SRCS.size()).num("builder_constraints", BM.size())
+    .num("ops", OPS.size()).num("queries", QS.size()).num("constructor_sources", SRCS.size()).num("join_scenario_shapes_dim2", PSH[2].size()).num("join_scenario_shapes_dim3", PSH[3].size()).num("join_scenario_receivers", PAIR_ITEMS.size()).num("builder_constraints", BM.size())
     .num("oracle_comparisons", counter(CNT_CHECKS)).num("violating_cases", counter(CNT_VIOL)).num("confirmed_crashes_or_hangs", counter(CNT_USER)).num("items_skipped_by_deadline", counter(CNT_SKIPPED))
     .num("cases_skipped_oracle_resource_limit", counter(CNT_REFCRASH)).arr("signatures_reached", sigs);
   std::string bound = std::string(SHAPE_NAME) + " " + (CFG.c04 ? "C04" : "C03") + ": dims " + std::to_string(CFG.mindim) + ".." + std::to_string(CFG.maxdim) + ", phase A depth " + std::to_string(CFG.depth)
